@@ -485,7 +485,26 @@ def form_rule(ctx):
             has_sign = "torch.sign(%s)" % x in t or ".sign()" in t
             has_abs = "torch.abs(%s)" % x in t or "%s.abs()" % x in t
             third = "/3" in t or "1/3" in t
-            if has_sign and has_abs and third:
+            # the magnitude must reach the root unaltered: a floor / offset on |x| (clamp(min=eps), + eps, maximum)
+            # makes cbrt(x) ** 3 != x for every non-zero x it acts on
+            altered = None
+            from ..symexp import uwalk as _uw
+
+            def mentions_abs(e):
+                return any((isinstance(n, ast.Call) and ((isinstance(n.func, ast.Attribute) and n.func.attr == "abs") or (isinstance(n.func, ast.Name) and n.func.id == "abs"))) for n in _uw(e))
+
+            for n in _uw(path.ret):
+                if isinstance(n, ast.Call):
+                    last = n.func.attr if isinstance(n.func, ast.Attribute) else (n.func.id if isinstance(n.func, ast.Name) else "")
+                    if last in ("clamp", "clamp_min", "clip", "maximum", "max", "fmax", "relu", "threshold", "add", "nan_to_num", "where", "masked_fill") and any(mentions_abs(a) for a in list(n.args) + ([n.func.value] if isinstance(n.func, ast.Attribute) else [])):
+                        altered = n
+                        break
+                if isinstance(n, ast.BinOp) and isinstance(n.op, (ast.Add, ast.Sub)) and (mentions_abs(n.left) or mentions_abs(n.right)):
+                    altered = n
+                    break
+            if altered is not None:
+                res.fail(Finding("UT-FORM", fi.module, fi.qualname, path.ret_node, "cbrt alters the magnitude before taking the root (`%s`): for every non-zero x the alteration acts on (|x| below a floor, or shifted by an offset) the result is the cube root of something else -- cbrt(x) ** 3 != x, and the value no longer depends on x there" % norm_text(altered)[:70], construct="magnitude of cbrt"))
+            elif has_sign and has_abs and third:
                 res.ok("cbrt: sign and magnitude handled separately")
             else:
                 res.fail(Finding("UT-FORM", fi.module, fi.qualname, path.ret_node, "cbrt must combine torch.sign(x) with the cube root of |x| (sign %s, abs %s, third %s): negative inputs otherwise give NaN or the wrong sign" % (has_sign, has_abs, third)))
